@@ -388,6 +388,13 @@ def rule_r3(ctx, rid="C17.R3"):
             ctx.r.ok(rid, "bytes-stage skip only clears when numbytes == len(strbuf)", f.loc(x.ast))
         else:
             ctx.r.violation(rid, key_of(f, None, "strbuf-skip"), "the bytes stage is cleared by skip() without numbytes == len(strbuf)", f.loc(x.ast))
+    # every normal path through skip() consumes: it clears the bytes stage or reaches the delegate's skip
+    dsk = [x for x, c in find_calls(g, lambda c: isinstance(c.func, ast.Attribute) and c.func.attr == "skip" and dotted(c.func.value) in ("buf", "self.buf"))]
+    pth = g.path(g.entry, g.exit, avoid=cl2 + dsk, follow_exc=False)
+    if pth is None and (cl2 or dsk):
+        ctx.r.ok(rid, "every normal path of skip() clears the bytes stage or skips in the delegate", f.loc())
+    else:
+        ctx.r.violation(rid, key_of(f, None, "skip-consumes-nothing"), "OverflowableBuffer.skip can return without consuming anything (%s): the bytes just sent are sent again" % (g.describe_path(pth) if pth else "no consuming statement"), f.loc())
     fw = [x for x, cc in find_calls(g, lambda cc: dotted(cc.func) == "buf.skip")]
     if fw and norm([cc for cc in ast.walk(fw[0].ast) if isinstance(cc, ast.Call)][0].args[0]) == f.params[1]:
         ctx.r.ok(rid, "skip forwards numbytes to the delegate", f.loc(fw[0].ast))
